@@ -107,6 +107,13 @@ class Link:
         self.server_closed = True
         self._deliver_fin()
 
+    def rst_now(self, err: str = "ECONNRESET") -> None:
+        """Peer RST delivered without link latency (accepted and reset at once: a console at its connection limit)."""
+        if self.server_closed and self.lost:
+            return
+        self.server_closed = True
+        self._deliver_rst(err)
+
     def _deliver_fin(self) -> None:
         tr = self.transport
         if self.blackhole or tr is None or tr._conn_lost or tr._closing:
@@ -477,9 +484,13 @@ class SimNet:
             self.trace.add("conn.made", link=link.id)
             if self.fin_new_links:
                 d = self.fin_new_links.pop(0)
-                self.trace.add("fault.fired", k="tcp.peer_fin", link=link.id)
-                self.fired("tcp.peer_fin")
-                loop.sim_after(d, link.fin_now)
+                kind = "tcp.peer_rst" if isinstance(d, tuple) else "tcp.peer_fin"
+                self.trace.add("fault.fired", k=kind, link=link.id)
+                self.fired(kind)
+                if isinstance(d, tuple):
+                    loop.sim_after(d[1], link.rst_now)
+                else:
+                    loop.sim_after(d, link.fin_now)
             if self.stall_new_links:
                 # flow control from the first byte: the peer's window is closed for a while
                 dur = self.stall_new_links.pop(0)
